@@ -30,31 +30,28 @@ impl Annotations {
         Ok(Annotations {
             z,
             alpha,
-            original_commitment_hash: Annotation::OriginalCommitmentHash
-                .extract(annotations)?
-                .first()
-                .ok_or(anyhow::anyhow!("No OriginalCommitmentHash in annotations!"))?
-                .clone(),
-            interaction_commitment_hash: Annotation::InteractionCommitmentHash
-                .extract(annotations)?
-                .first()
-                .ok_or(anyhow::anyhow!("No InteractionCommitmentHash in annotations!"))?
-                .clone(),
-            composition_commitment_hash: Annotation::CompositionCommitmentHash
-                .extract(annotations)?
-                .first()
-                .ok_or(anyhow::anyhow!("No CompositionCommitmentHash in annotations!"))?
-                .clone(),
+            original_commitment_hash: exactly_one(
+                Annotation::OriginalCommitmentHash.extract(annotations)?,
+                "OriginalCommitmentHash",
+            )?,
+            interaction_commitment_hash: exactly_one(
+                Annotation::InteractionCommitmentHash.extract(annotations)?,
+                "InteractionCommitmentHash",
+            )?,
+            composition_commitment_hash: exactly_one(
+                Annotation::CompositionCommitmentHash.extract(annotations)?,
+                "CompositionCommitmentHash",
+            )?,
             oods_values: Annotation::OodsValues.extract(annotations)?,
             fri_layers_commitments: Annotation::FriLayersCommitments.extract(annotations)?,
             fri_last_layer_coefficients: Annotation::FriLastLayerCoefficients
                 .extract(annotations)?,
-            proof_of_work_nonce: Annotation::ProofOfWorkNonce
-                .extract(annotations)?
-                .first()
-                .filter(|nonce| nonce.bits() <= u64::BITS as u64)
-                .ok_or(anyhow::anyhow!("No 64-bit ProofOfWorkNonce in annotations!"))?
-                .clone(),
+            proof_of_work_nonce: Some(exactly_one(
+                Annotation::ProofOfWorkNonce.extract(annotations)?,
+                "ProofOfWorkNonce",
+            )?)
+            .filter(|nonce| nonce.bits() <= u64::BITS as u64)
+            .ok_or(anyhow::anyhow!("No 64-bit ProofOfWorkNonce in annotations!"))?,
             original_witness_leaves: Annotation::OriginalWitnessLeaves.extract(annotations)?,
             original_witness_authentications: Annotation::OriginalWitnessAuthentications
                 .extract(annotations)?,
@@ -77,6 +74,18 @@ impl Annotations {
                 })
                 .collect::<anyhow::Result<Vec<_>>>()?,
         })
+    }
+}
+
+// The verifier has a single slot for each of these values: a file that records none, or more than
+// one, cannot be converted without dropping something.
+fn exactly_one(values: Vec<BigUint>, what: &str) -> anyhow::Result<BigUint> {
+    match <[BigUint; 1]>::try_from(values) {
+        Ok([value]) => Ok(value),
+        Err(values) => Err(anyhow::anyhow!(
+            "Expected exactly one {what} in annotations, found {}",
+            values.len()
+        )),
     }
 }
 
